@@ -631,8 +631,8 @@ def gen_unit_cases(ctx):
     toks = exhaustive(ALPHA_DS, n)
     if quick:
         toks = [t for t in toks if len(t) <= 4] + rng.sample([t for t in toks if len(t) == 5], 30000)
-    jobs['domainspec-exh'] = ['domainspec %s %s %s %s' % (hexs('email.example.com'), hexs(t), s4, zone) for t in toks]
-    jobs['makro-exh'] = ['makro %d %s %s %s %s' % (ex, hexs(t), hexs('email.example.com'), s4, zone) for t in toks[:40000 if quick else len(toks)] for ex in (0, 1)]
+    jobs['domainspec-exh'] = ['spf_domainspec %s %s %s %s' % (hexs('email.example.com'), hexs(t), s4, zone) for t in toks]
+    jobs['makro-exh'] = ['spf_makro %d %s %s %s %s' % (ex, hexs(t), hexs('email.example.com'), s4, zone) for t in toks[:40000 if quick else len(toks)] for ex in (0, 1)]
     # structured macro strings
     ms = []
     letters = 'slodiphcrtvSLODIPHCRTVxz'
@@ -650,43 +650,43 @@ def gen_unit_cases(ctx):
         t = ''.join(parts)
         ss = rng.choice([s4, s6, sess('192.0.2.1', b'a.b-c+d,e/f_g=h@x-y.example.com', b'', b'r.example.org'), sess('fe80::1', b'user@example.com', b'[::1]', b'')])
         z = rng.choice([zone, '', zE('P', '192.0.2.1', rng.choice(ERRNOS)), zP('192.0.2.1', 'a.b.c.example.org') + ' ' + zA('a.b.c.example.org', ['192.0.2.1'])])
-        ms.append('makro %d %s %s %s %s' % (rng.choice([0, 1]), hexs(t.encode('latin1')), hexs(rng.choice(['email.example.com', 'a.b.c.d.e.f', 'x', 'ex-am_ple.com.'])), ss, z))
+        ms.append('spf_makro %d %s %s %s %s' % (rng.choice([0, 1]), hexs(t.encode('latin1')), hexs(rng.choice(['email.example.com', 'a.b.c.d.e.f', 'x', 'ex-am_ple.com.'])), ss, z))
         if rng.random() < 0.3:
-            ms.append('domainspec %s %s %s %s' % (hexs('email.example.com'), hexs((t + rng.choice(['', '/24', '//64', '/24//64', '.com', '.example.com'])).encode('latin1')), ss, z))
+            ms.append('spf_domainspec %s %s %s %s' % (hexs('email.example.com'), hexs((t + rng.choice(['', '/24', '//64', '/24//64', '.com', '.example.com'])).encode('latin1')), ss, z))
     jobs['makro-structured'] = [m.strip() for m in ms]
     # CIDR suffixes
     cs = []
     for t in exhaustive(['/', '1', '3', '9', '-', ' ', 'x'], 5 if quick else 6):
-        cs.append('domainspec %s %s %s' % (hexs('email.example.com'), hexs('a.example.com' + t), s4))
+        cs.append('spf_domainspec %s %s %s' % (hexs('email.example.com'), hexs('a.example.com' + t), s4))
         if len(t) <= 4:
-            cs.append('domainspec %s %s %s' % (hexs('email.example.com'), hexs(t), s4))
+            cs.append('spf_domainspec %s %s %s' % (hexs('email.example.com'), hexs(t), s4))
     jobs['domainspec-cidr'] = cs
     # ip literals
     ip = []
     for _ in range(4000 if quick else 40000):
-        ip.append('ip4 %s %s' % (hexs(gen_ip4lit(rng, '192.0.2.1') + rng.choice(['', ' -all', '\tx'])), rng.choice([s4, s6])))
-        ip.append('ip6 %s %s' % (hexs(gen_ip6lit(rng, '2001:db8::cb01') + rng.choice(['', ' -all'])), rng.choice([s4, s6])))
+        ip.append('spf_ip4 %s %s' % (hexs(gen_ip4lit(rng, '192.0.2.1') + rng.choice(['', ' -all', '\tx'])), rng.choice([s4, s6])))
+        ip.append('spf_ip6 %s %s' % (hexs(gen_ip6lit(rng, '2001:db8::cb01') + rng.choice(['', ' -all'])), rng.choice([s4, s6])))
     for t in exhaustive(['1', '.', '/', '8', ' '], 6):
-        ip.append('ip4 %s %s' % (hexs('1.1.1.' + t), s4))
+        ip.append('spf_ip4 %s %s' % (hexs('1.1.1.' + t), s4))
     jobs['ip-literals'] = ip
     pt = []
     for t in exhaustive(['1', ':', '.', 'f', '0'], 7 if quick else 9):
-        pt.append('pton6 %s' % hexs(t))
+        pt.append('spf_pton6 %s' % hexs(t))
     for t in exhaustive(['1', '.', '0', '25'], 7):
-        pt.append('pton4 %s' % hexs(t))
+        pt.append('spf_pton4 %s' % hexs(t))
     for _ in range(3000 if quick else 30000):
         b = bytearray(16)
         for i in range(8):
             if rng.random() < 0.5:
                 v = rng.choice([0, 1, 0xffff, rng.randrange(65536)])
                 b[2 * i] = v >> 8; b[2 * i + 1] = v & 255
-        pt.append('ntop %s' % bytes(b).hex())
+        pt.append('spf_ntop %s' % bytes(b).hex())
         c = bytearray(b)
         m = rng.randrange(0, 129)
         if rng.random() < 0.7:
             c[rng.randrange(16)] ^= 1 << rng.randrange(8)
-        pt.append('matchnet6 %s %s %d' % (bytes(b).hex(), bytes(c).hex(), m))
-        pt.append('matchnet4 %s %s %d' % (bytes(b).hex(), bytes(c[12:]).hex(), rng.randrange(0, 33)))
+        pt.append('spf_matchnet6 %s %s %d' % (bytes(b).hex(), bytes(c).hex(), m))
+        pt.append('spf_matchnet4 %s %s %d' % (bytes(b).hex(), bytes(c[12:]).hex(), rng.randrange(0, 33)))
     jobs['libc-and-matchnet'] = pt
     # match_mechanism / spf_modifier_name
     mm = []
@@ -695,18 +695,18 @@ def gen_unit_cases(ctx):
         for suffix in ['', ' ', ':', '/', 'x', '=', '.', ':x', '\t', '1', 'l']:
             for tm in (m, m.upper(), m.capitalize(), m[:-1], m + m):
                 for d in (':/', ':', ''):
-                    mm.append('matchmech %s %s %s' % (hexs(tm + suffix), hexs(m), hexs(d)))
+                    mm.append('spf_matchmech %s %s %s' % (hexs(tm + suffix), hexs(m), hexs(d)))
     for t in exhaustive(['a', 'Z', '1', '=', '-', '_', '.', ' ', '%'], 4 if quick else 5):
-        mm.append('modname %s' % hexs(t))
+        mm.append('spf_modname %s' % hexs(t))
     jobs['mechanism-and-modifier-names'] = mm
     # record_bad_token over every byte
     bt = []
     for c in range(1, 256):
-        bt.append('badtoken %s %d' % (hexs(b'v=spf1 ab' + bytes([c]) + b'cd ef'), 8))
+        bt.append('spf_badtoken %s %d' % (hexs(b'v=spf1 ab' + bytes([c]) + b'cd ef'), 8))
     for _ in range(2000 if quick else 20000):
         body = bytes(rng.choice([rng.randrange(1, 256), rng.randrange(32, 127), 32]) for _ in range(rng.randrange(1, 30)))
         buf = b'v=spf1 ' + body
-        bt.append('badtoken %s %d' % (hexs(buf), rng.randrange(7, len(buf) + 1)))
+        bt.append('spf_badtoken %s %d' % (hexs(buf), rng.randrange(7, len(buf) + 1)))
     jobs['record-bad-token'] = bt
     # spfreceived
     rc = []
@@ -715,16 +715,16 @@ def gen_unit_cases(ctx):
             ipx = rng.choice(V4 + V6 + ['::ffff:1.2.3.4', '::1.2.3.4', '::', '1::', '0:0:1::', '1:0:0:2:0:0:0:3', '::ffff:0:1', '64:ff9b::1.2.3.4'])
             e = rng.choice(['N', hexs('bad%token'), hexs('explanation text'), hexs('')])
             mech = rng.choice(['N', hexs('MX'), hexs('include'), hexs('default')])
-            rc.append('received %d %s %s %s' % (spf, e, mech, gen_session(rng, ipx)[0]))
+            rc.append('spf_received %d %s %s %s' % (spf, e, mech, gen_session(rng, ipx)[0]))
     jobs['spfreceived'] = rc
     dv = []
     for t in exhaustive(['a', '.', '-', '1', '_'], 6):
-        dv.append('domainvalid %s' % hexs(t))
+        dv.append('spf_domainvalid %s' % hexs(t))
     for L in (62, 63, 64, 65):
         for tl in (1, 2, 3, 63, 64, 65):
-            dv.append('domainvalid %s' % hexs('a.' + 'b' * L + '.' + 'c' * tl))
+            dv.append('spf_domainvalid %s' % hexs('a.' + 'b' * L + '.' + 'c' * tl))
     for L in (250, 254, 255, 256, 257):
-        dv.append('domainvalid %s' % hexs(('a' * 49 + '.') * 5 + 'b' * (L - 250 - 4) + '.com' if L >= 254 else 'a' * 49 + '.com'))
+        dv.append('spf_domainvalid %s' % hexs(('a' * 49 + '.') * 5 + 'b' * (L - 250 - 4) + '.com' if L >= 254 else 'a' * 49 + '.com'))
     jobs['domainvalid'] = dv
     return jobs
 
@@ -750,6 +750,11 @@ def pred(case, impl):
 
 
 def pred_unit(case, impl):
+    """predicates on the implementation's output of unit-level operations"""
+    if case.startswith('spf_badtoken ') and impl != 'PRECOND':
+        return 'chk_spf_badtoken ' + impl
+    if case.startswith('spf_received ') and impl != 'PRECOND':
+        return 'chk_spf_received ' + impl
     return None
 
 
@@ -772,7 +777,7 @@ def run(ctx):
         zone_corp = [c for c in corp if c.startswith(('spf ', 'spfr '))]
         unit_corp = [c for c in corp if not c.startswith(('spf ', 'spfr '))]
         ctx.count('zone:corpus', len(zone_corp))
-        nz = 12000 if quick else 150000
+        nz = 25000 if quick else 250000
         cases = list(zone_corp)
         cases += [gen_random_zone_case(rng, ctx) for _ in range(nz)]
         cases += [gen_chain_case(rng, ctx) for _ in range(nz // 2)]
@@ -799,7 +804,7 @@ def run(ctx):
         if unit_corp:
             jobs['unit-corpus'] = unit_corp
         for name, js in jobs.items():
-            res = vlib.differential(ctx, name, h, js, corr_name='model QsmtpModel.Spf.* vs qsmtpd/spf.c (%s)' % name)
+            res = vlib.differential(ctx, name, h, js, pred=pred_unit, corr_name='model QsmtpModel.Spf.* vs qsmtpd/spf.c (%s)' % name)
             unit_fault(ctx, name, res)
     if not ctx.quick():
         vlib.leanchecker(ctx, ['QsmtpModel.Props.C11'])
